@@ -483,6 +483,21 @@ class C07(Campaign):
                 kw.pop("event", None)
                 beh[f"{p['name']}/{c}"] = [{"sends": [{"event": rnd.choice(p["events"]), "args": a, "kwargs": kw}],
                                             "sends_jlt": 1, "sends_dplt": 1}]
+        if rnd.random() < 0.25:
+            # a callback that declares ``event_data`` modifies the dictionary returned by
+            # ``event_data.extended_kwargs`` (its own copy): no other callback's parameters change
+            cands_ = sorted(c for c, m in prog["cbs"].items()
+                            if m["group"] in ("validators", "before", "exit", "on")
+                            and not any(m.get(f) for f in ("noself", "static", "partial"))
+                            and not any(q["name"] == "event_data" for q in m.get("sig", []))
+                            and not any(q["kind"] in ("var",) for q in m.get("sig", [])))
+            if cands_:
+                c = rnd.choice(cands_)
+                sig = prog["cbs"][c]["sig"]
+                sig.append(P("event_data", "ko"))
+                sig.sort(key=lambda q: {"po": 0, "pk": 1, "var": 2, "ko": 3, "varkw": 4}[q["kind"]])
+                for r_ in beh.setdefault(f"{prog['name']}/{c}", [{}]):
+                    r_["scribble"] = True
         ops = []
         for k, p in enumerate(programs):
             is_async = any(m.get("async") for m in p["cbs"].values())
